@@ -1,5 +1,6 @@
 """C17  Async selection directives select exactly the documented functions."""
 import os
+import shutil
 import time
 
 from .core import *
@@ -35,17 +36,140 @@ def core_part(tier, wd, out):
     return mc, g, t, n_obs
 
 
+ITEMS = {"if": "  import f: func();\n", "ef": "  export f: func();\n", "ii": "  import i;\n", "ei": "  export i;\n", "ek": "  export k: async func();\n"}
+GEN_LANGS = ["rust", "c", "go", "moonbit"]
+
+
+def directive(d):
+    body = {"all": "all", "fn": d["name"], "import": "import:" + d["name"], "export": "export:" + d["name"]}[d["kind"]]
+    return body if d["en"] else "-" + body
+
+
+def world_wit(items):
+    return ("package t:p;\ninterface i {\n  g: func();\n  h: async func();\n  resource r { m: func(); }\n}\nworld w {\n"
+            + "".join(ITEMS[it] for it in sorted(items)) + "}\n")
+
+
+def expected_surface(v):
+    """the core surface the spec's `async` set implies (all probe functions are () -> (), methods take self)"""
+    asy = {(f["name"], f["imp"]) for f in v["async"]}
+    imps, exps = {}, {}
+    for f in v["funcs"]:
+        a = (f["name"], f["imp"]) in asy
+        iface, _, fn = f["name"].rpartition("#")
+        ps = ["i32"] if "[method]" in fn else []
+        if f["imp"]:
+            imps[(iface or "$root", ("[async-lower]" if a else "") + fn)] = (ps, ["i32"] if a else [])
+        elif a:
+            exps["[async-lift]" + f["name"]] = (ps, ["i32"])
+            exps["[callback][async-lift]" + f["name"]] = (["i32", "i32", "i32"], ["i32"])
+        else:
+            exps[f["name"]] = (ps, [])
+    return imps, exps
+
+
+def generators_part(tier, wd, out, vecs):
+    """the generated code uses the asynchronous ABI for precisely the functions the spec selects (Rust, C, Go, MoonBit),
+    and the Rust generator rejects a directive that matched nothing"""
+    from . import genprobe as gp
+    from . import surface_scan as ss
+    cli = cli_exe()
+    ss.ensure_libc()
+    n = 150 if tier == "quick" else 1500
+    inter = [v for v in vecs if len(v["dirs"]) >= 1]
+    # deterministic sample that keeps the interesting classes: rejected lists, shadowing, direction-specific directives
+    rej = [v for v in inter if v["mustReject"]][:: max(1, len([v for v in inter if v["mustReject"]]) // (n // 5))]
+    acc = [v for v in inter if v["mustAccept"] and len(v["dirs"]) == 2 and len(v["decisive"]) == 2]
+    acc = acc[:: max(1, len(acc) // (n // 2))]
+    rest = [v for v in inter if not v["mustReject"] and not v["mustAccept"]]
+    rest = rest[:: max(1, len(rest) // (n // 4))]
+    sample = rej + acc + rest
+    units = []
+    for k, v in enumerate(sample):
+        d = os.path.join(wd, "gen", str(k))
+        os.makedirs(d, exist_ok=True)
+        open(os.path.join(d, "w.wit"), "w").write(world_wit(v["world"]))
+        for lang in GEN_LANGS:
+            units.append({"k": k, "v": v, "lang": lang, "wit": os.path.join(d, "w.wit"), "out": os.path.join(d, lang),
+                          "args": gp.cli_args(lang) + [f"--async={directive(x)}" for x in v["dirs"]]})
+    gen = gp.run_matrix(cli, [{"lang": u["lang"], "wit": u["wit"], "out": u["out"], "args": u["args"]} for u in units], workers=16, wd=wd)
+    cc, links = [], []
+    for i, (u, j) in enumerate(zip(units, gen)):
+        u["res"] = j["res"]
+        if u["lang"] == "c" and u["res"]["status"] == "ok":
+            cmds, link = ss.c_compile_cmds(u["out"])
+            cc += [(f"{i}:{m}", c) for m, c in enumerate(cmds)]
+            links.append((str(i), link))
+    rcc = gp.run_commands(cc, wd, workers=16) if cc else {}
+    bad = {int(c.split(":")[0]) for c, r in rcc.items() if r["rc"] != 0}
+    rl = gp.run_commands([l for l in links if int(l[0]) not in bad], wd, workers=16) if links else {}
+    sx = os.path.join(cargo_build("surface"), "surface")
+    stats = {"units": len(units), "judged_surfaces": 0, "rust_reject_judged": 0, "rust_accept_judged": 0, "not_generated": 0}
+    for i, u in enumerate(units):
+        v, lang, st = u["v"], u["lang"], u["res"]["status"]
+        dirs = [directive(x) for x in v["dirs"]]
+        ctx = {"dirs": dirs, "world": sorted(v["world"]), "lang": lang, "wit": open(u["wit"]).read(), "cli": u["res"]}
+        dkey = lang + ":" + ",".join(dirs) + "@" + "+".join(sorted(v["world"]))
+        if lang == "rust":
+            if v["mustReject"]:
+                stats["rust_reject_judged"] += 1
+                if st == "ok":
+                    out.violation("rust-accepts-unmatched:" + dkey, f"rust accepts --async {dirs} although a directive matches no function of the world", ctx)
+            if v["mustAccept"]:
+                stats["rust_accept_judged"] += 1
+                if st != "ok":
+                    out.violation("rust-rejects-decisive:" + dkey, f"rust rejects --async {dirs} although every directive decides a function: {u['res']}", ctx)
+        if st == "panic":
+            out.violation("panic:" + dkey, f"{lang} panics on --async {dirs}: {u['res']}", ctx)
+        if st != "ok":
+            stats["not_generated"] += 1
+            continue
+        if lang == "c":
+            if i in bad or str(i) not in rl or rl[str(i)]["rc"] != 0:
+                out.violation("c-not-compilable:" + dkey, f"generated C for --async {dirs} does not compile/link", ctx)
+                continue
+            sc = json.loads(sh([sx, "module", os.path.join(u["out"], "linked.wasm")], check=True).stdout)
+        else:
+            sc = ss.scan(lang, u["out"])
+        imps, exps = expected_surface(v)
+        got_i = {(x["module"], x["name"]): (x["params"], x["results"]) for x in sc["imports"]}
+        got_e = {x["name"]: (x["params"], x["results"]) for x in sc["exports"]}
+        stats["judged_surfaces"] += 1
+        for f in v["funcs"]:
+            iface, _, fn = f["name"].rpartition("#")
+            if f["imp"]:
+                a_key, s_key = (iface or "$root", "[async-lower]" + fn), (iface or "$root", fn)
+                is_a, is_s = a_key in got_i, s_key in got_i
+                want = a_key in imps
+                sig_ok = got_i.get(a_key if want else s_key) == imps[a_key if want else s_key]
+            else:
+                a_key, s_key = "[async-lift]" + f["name"], f["name"]
+                is_a, is_s = a_key in got_e, s_key in got_e
+                want = a_key in exps
+                sig_ok = got_e.get(a_key if want else s_key) == exps[a_key if want else s_key] and (not want or "[callback]" + a_key in got_e)
+            side = "import" if f["imp"] else "export"
+            if is_a == is_s:
+                if not is_a and lang in ("rust",) and f["imp"]:
+                    pass
+                out.violation(f"binding-count:{lang}:{side}:{f['name']}:" + ",".join(dirs),
+                              f"{lang}: {side} {f['name']} is bound {'both sync and async' if is_a else 'neither sync nor async'} under --async {dirs}", ctx)
+            elif is_a != want:
+                out.violation(f"selection:{lang}:{side}:{f['name']}:" + ",".join(dirs),
+                              f"{lang}: {side} {f['name']} is bound {'async' if is_a else 'sync'} under --async {dirs}; the first matching directive says {'async' if want else 'sync'}", ctx)
+            elif not sig_ok:
+                out.violation(f"abi:{lang}:{side}:{f['name']}:" + ",".join(dirs),
+                              f"{lang}: {side} {f['name']} has the {'async' if want else 'sync'} name but not the matching core signature / callback", ctx)
+    shutil.rmtree(os.path.join(wd, "gen"), ignore_errors=True)
+    stats["sample"] = {"rejected_lists": len(rej), "two_decisive": len(acc), "other": len(rest)}
+    return stats
+
+
 def run(tier):
     t0 = time.time()
     wd = workdir(PID)
     out = Outcome(PID)
     mc, g, t, n_obs = core_part(tier, wd, out)
-    gen_info = {}
-    try:
-        from . import genprobe
-        gen_info = genprobe.c17_generators(tier, wd, out, g.vecs)
-    except ImportError:
-        gen_info = {"generators": "not yet wired (gen-probe pending)"}
+    gen_info = generators_part(tier, wd, out, g.vecs)
     rc, unlisted = out.finish()
     write_evidence(PID, tier, "model_checking", {
         "states": mc.distinct + g.distinct + t.distinct,
